@@ -187,6 +187,18 @@ def r19_config_invariance(facts_by_cfg, run_rules):
                         c.bad("width-const:%s:%s" % (cfg, norm(b["def"])), F.loc(b, n),
                               "the width-characteristic constant `%s` enters a computation: its value is not the same number in the two builds "
                               "(2.2e-16 vs 1.2e-7 for EPSILON), so results differ from the double-precision reference by more than rounding" % norm(d))
+        # the same constants reached through the `approx` traits' defaults (`Float::default_epsilon()` is f64::EPSILON / f32::EPSILON)
+        for b in facts.bodies:
+            if (b.get("impl_trait_def") or "").startswith("approx::") or (facts.body(b.get("root", "")) or {}).get("impl_trait_def", "").startswith("approx::") \
+                    if b.get("root") else (b.get("impl_trait_def") or "").startswith("approx::"):
+                continue        # the crate's own AbsDiffEq / RelativeEq impls for Array forward the defaults: comparison tolerances, not computations
+            for n in walk(facts.root(b)):
+                if n.get("k") == "Call" and (callee(n) or "").startswith("approx::") and (callee(n) or "").rsplit("::", 1)[-1].startswith("default_") \
+                        and n.get("ty") in ("f64", "f32"):
+                    hits += 1
+                    c.bad("width-const:%s:%s" % (cfg, norm(b["def"])), F.loc(b, n),
+                          "`%s` is the float type's EPSILON (2.2e-16 vs 1.2e-7): a width-characteristic constant enters a computation or a branch, so results differ "
+                          "from the double-precision reference by more than rounding" % norm(callee(n)))
         if not hits:
             c.ok("width-const:%s" % cfg, "-", "no EPSILON / MAX / MIN_POSITIVE / .. of a float type in the %s build's bodies" % cfg)
     # (e) every other rule gives the same obligations under both configurations
